@@ -412,6 +412,9 @@ int strToInt(GenState &gs, Node *c) {
 
 int strToIntSilent(Node *c) {
   long v = std::strtol(c->tok.c_str(), NULL, 10);
+  // out of range values were already reported by strToInt(); keep the result
+  // inside int so that negating it ("x - c") stays defined
+  if (v > INT_MAX) v = INT_MAX;
   return v;
 }
 
